@@ -9,7 +9,7 @@ from .unflatten import pl_bounded_lemma
 K = KIND
 MAXD = M.MAX_RECURSION_DEPTH
 PAYLOAD = ('kind', 'arity', 'node_data', 'node_entries', 'custom', 'original_keys')
-py_as_int = z3.Function('py_as_int', Ref, Int)
+py_as_int = M.py_as_int
 
 
 def prefix_same(a: NodeVec, b: NodeVec, upto):
